@@ -4,6 +4,7 @@ CONSTANTS
   Variants = {"A", "B", "C"}
   MetaKeys = {"d"}
   Values = {"x"}
+  AtomicSave = TRUE
   DropStaleIndex = TRUE
 INVARIANT Finish
 POSTCONDITION Consumed
